@@ -183,6 +183,25 @@ def c05(obj, kind, case, cfg, rec, rng):
             judge('.unseen_category', probe_frame(raw, [unseen, base_row[raw]], object), f, expect_reject=(not has_default))
             if not order.contains(obj.str_nan):
                 judge('.missing_where_none_seen', probe_frame(raw, [np.nan, base_row[raw]], object), f, expect_reject=True)
+    # a value unseen for feature A but known to feature B, in the same frame: B's rows must be labelled as usual (row-wise purity, C05 / C07 / C10)
+    quali = [f for f in obj.features if f in obj.qualitative_features and kind != 'MulticlassCarver']
+    for A in quali:
+        for B in quali:
+            if A == B: continue
+            oa, obb = obj.values_orders[A], obj.values_orders[B]
+            has_default = obj.str_default is not None and obj.str_default in oa.values()
+            cand = [v for v in obb.values() if isinstance(v, str) and v not in (obj.str_nan, obj.str_default) and not oa.contains(v) and (X[B] == v).any()]
+            if not cand or not has_default: continue
+            v = cand[0]; rows = [i for i, x in enumerate(X[B].tolist()) if x == v][:2] + [0, 1]
+            df = X.iloc[rows].copy().reset_index(drop=True); df.loc[1, A] = v
+            a = outcome(lambda: obj.transform(df)); ref = outcome(lambda: obj.transform(X.iloc[rows].reset_index(drop=True)))
+            if a[0] == 'ok' and ref[0] == 'ok':
+                rec('C05:transform#post.unseen_value_of_one_feature_does_not_touch_other_features', series_list(a[1][B]) == series_list(ref[1][B]),
+                    'value %r (unseen for %s, known to %s): output of %s changed from %r to %r' % (v, A, B, B, series_list(ref[1][B]), series_list(a[1][B])), dict(feature=B))
+                rec('C07:transform#post.unseen_value_of_one_feature_does_not_touch_other_features', series_list(a[1][B]) == series_list(ref[1][B]),
+                    'value %r (unseen for %s, known to %s): output of %s changed from %r to %r' % (v, A, B, B, series_list(ref[1][B]), series_list(a[1][B])), dict(feature=B))
+            elif a[0] != ref[0]:
+                rec('C05:transform#post.unseen_value_of_one_feature_does_not_touch_other_features', False, 'value %r unseen for %s (which has a default group) but known to %s: %s' % (v, A, B, a[0]), dict(feature=B))
     # empty and single-row frames
     for name, df in (('.empty_frame', X.iloc[0:0]), ('.single_row', X.iloc[0:1])):
         try:
@@ -437,7 +456,7 @@ def one(arg):
         return recs
     recs.append(('C08:fit#raises.only_AssertionError', True, dict(kind=kind, cfg=cfg, h=hash(json.dumps(lit['case'], sort_keys=True, default=str))), ''))
     for p, fn in (('C04', lambda: c04(obj, kind, case, cfg, rec)), ('C03', lambda: (c03(obj, kind, case, cfg, rec), c03_categorical(obj, kind, case, cfg, rec))),
-                  ('C05', lambda: c05(obj, kind, case, cfg, rec, rng)), ('C06', lambda: c06(obj, kind, case, cfg, rec, rng)), ('C07', lambda: c07(obj, kind, case, cfg, rec, rng)),
+                  ('C05', lambda: c05(obj, kind, case, cfg, rec, rng)), ('C07', lambda: c05(obj, kind, case, cfg, (lambda c, ok, m, e=None: rec(c, ok, m, e) if c.startswith('C07:') else None), rng) if 'C05' not in props else None), ('C06', lambda: c06(obj, kind, case, cfg, rec, rng)), ('C07', lambda: c07(obj, kind, case, cfg, rec, rng)),
                   ('C08', lambda: c08(obj, kind, case, cfg, rec)), ('C16', lambda: c16(obj, kind, case, cfg, rec))):
         if p not in props: continue
         try: fn()
